@@ -129,13 +129,20 @@ macro_rules! c16_impl {
                         }
                         "update" | "adjust" => {
                             let g = self.grid.as_ref().unwrap();
-                            let upd = op == "update";
-                            let ok = match self.node.as_mut().unwrap() {
-                                Node::Data(n) => if upd { n.update(g).is_ok() } else { n.adjust(g).is_ok() },
-                                Node::Time(n) => if upd { n.update(g).is_ok() } else { n.adjust(g).is_ok() },
-                                Node::Space(n) => if upd { n.update(g).is_ok() } else { n.adjust(g).is_ok() },
-                                Node::SpaceTime(n) => if upd { n.update(g).is_ok() } else { n.adjust(g).is_ok() },
-                            };
+                            let upd_ = op == "update";
+                            // through the trait (a generic caller): an inherent method of the same name must not stand in for it
+                        fn upd<A: Adjustable<$t>>(a: &mut A, g: &G) -> bool {
+                            a.update(g).is_ok()
+                        }
+                        fn adj<A: Adjustable<$t>>(a: &mut A, g: &G) -> bool {
+                            a.adjust(g).is_ok()
+                        }
+                        let ok = match self.node.as_mut().unwrap() {
+                            Node::Data(n) => if upd_ { upd(n, g) } else { adj(n, g) },
+                            Node::Time(n) => if upd_ { upd(n, g) } else { adj(n, g) },
+                            Node::Space(n) => if upd_ { upd(n, g) } else { adj(n, g) },
+                            Node::SpaceTime(n) => if upd_ { upd(n, g) } else { adj(n, g) },
+                        };
                             format!("{}:{}", if ok { "ok" } else { "err" }, self.coords())
                         }
                         _ => "bad-op".into(),
